@@ -8,17 +8,20 @@ package gripql
 // nozero(s): s has no 0x00 byte, the separator of the composite storage keys.
 
 //@ func containsNul
+//@   vars s
 //@   property C16
 //@   pure
 //@   ensures def: result <==> !nozero(s)
 
 //@ func validate
+//@   vars k
 //@   property C16
 //@   pure
 //@   ensures accepts: result == nil <==> (nozero(k) &&
 //@       !containsAny(k, "!@#$%^&*()+={}[] :;\"',.<>?/\\|~") && !hasprefix(k, "_") && !hasprefix(k, "-"))
 
 //@ func ValidateGraphName
+//@   vars graph err
 //@   property C16
 //@   pure
 //@   ensures faithful: result == nil ==> nozero(graph)
@@ -26,11 +29,13 @@ package gripql
 //@       !containsAny(graph, "!@#$%^&*()+={}[] :;\"',.<>?/\\|~") && !hasprefix(graph, "_") && !hasprefix(graph, "-"))
 
 //@ func ValidateFieldName
+//@   vars k v err
 //@   property C16
 //@   pure
 //@   ensures faithful: result == nil ==> nozero(k)
 
 //@ func (*Vertex).Validate
+//@   vars vertex k err
 //@   property C16
 //@   option prelude=kv
 //@   pure
@@ -40,6 +45,7 @@ package gripql
 //@   ensures faithful: result == nil ==> nozero(vertex.Gid) && nozero(vertex.Label)
 
 //@ func (*Edge).Validate
+//@   vars edge k err
 //@   property C16
 //@   option prelude=kv
 //@   pure
